@@ -45,7 +45,8 @@ _REQUIRED = (["kind:" + k for k in _KINDS] + ["algo:" + a for a in ALGOS]
              + ["dummy-root", "dummy-internal", "dummy-leaf", "multi-set-node", "three-set-node", "arity-3",
                 "unary-node", "qn-none", "qn-one", "qn-two", "multi-set-node-coupled", "library-auto-dummy",
                 "hand-made-dummy-root", "hand-made-dummy-internal", "hand-made-dummy-leaf", "shuffled-order",
-                "complex-class", "multi-dof-site", "kind:aux-space", "interleaved-same-site", "zero-factor-term", "one-term"])
+                "complex-class", "multi-dof-site", "kind:aux-space", "interleaved-same-site", "zero-factor-term", "one-term",
+                "units:tiny", "units:huge"])
 
 
 def plan(tier):
@@ -83,7 +84,14 @@ def build_terms(ctx, gm, complex_class):
     else:
         nterms = int(rng.integers(12, 41))
     terms = gen.random_terms(rng, gm, nterms, allow_complex=complex_class, complex_factors=complex_class)
-    return decorate_terms(ctx, gm, terms)
+    terms = decorate_terms(ctx, gm, terms)
+    if rng.random() < 0.12:
+        # other units: every coefficient tiny or huge in absolute value (all tolerances of the check are relative to the terms)
+        from renormalizer.model import Op
+        g = float(rng.choice([1e-10, 1e-7, 1e9]))
+        terms = [Op(t.symbol, t.dofs, t.factor * g, qn=t.qn_list) for t in terms]
+        ctx.cls("units:tiny" if g < 1 else "units:huge")
+    return terms
 
 
 def decorate_terms(ctx, gm, terms):
